@@ -285,9 +285,11 @@ func runC14(c *Ctx) {
 					if cpu.Interrupt != nil {
 						continue // not accepted: not this part's business
 					}
-					if cpu.IR.Lo&0x80 != pre.IR.Lo&0x80 || cpu.IR.Hi != pre.IR.Hi || d > 2 {
+					// mode 0 executes the supplied instruction: that is an opcode fetch, so the
+					// counter must move (1, or 2 with a separate acknowledge count)
+					if cpu.IR.Lo&0x80 != pre.IR.Lo&0x80 || cpu.IR.Hi != pre.IR.Hi || d > 2 || (kind >= 3 && d == 0) {
 						c.R.Violation(fmt.Sprintf("C14/acceptance/kind%d", kind), map[string]interface{}{
-							"what": "interrupt acceptance changed bit 7 of R or I, or moved the refresh counter by more than two fetches",
+							"what": "interrupt acceptance changed bit 7 of R or I, moved the refresh counter by more than two fetches, or executed a mode-0 instruction without counting its opcode fetch",
 							"pre":  DumpState(&pre, false), "post": DumpState(&cpu.States, cpu.HALT), "request_data": HexBytes(it.Data), "nmi": kind == 0})
 					}
 					distinct.Add(mon.Hash(0xacc, uint64(r0), uint64(kind), uint64(rep)))
